@@ -3,6 +3,7 @@ pub mod c10;
 pub mod c14;
 pub mod c17;
 pub mod c15;
+pub mod c16;
 pub mod c18;
 pub mod c19;
 pub mod supervise;
@@ -112,6 +113,17 @@ pub fn dispatch(prop: &str, tier: &str) -> i32 {
             let chk = Composite { a: Box::new(c17::CsvCheck { property: "C11", mode: c17::CsvMode::Multi }), b: Box::new(c10::PqCheck { property: "C11", mode: c10::PqMode::Pushdown }) };
             crate::finish(&cfg, &chk, serde_json::json!({}))
         }
+        "C16" => {
+            let mut cfg = crate::base_cfg("C16", tier);
+            let asan = std::env::var("VERIF_FLAVOR").map(|f| f == "asan").unwrap_or(false);
+            cfg.runs = if quick { if asan { 1200 } else { 6000 } } else if asan { 60_000 } else { 400_000 };
+            cfg.rule = format!("memory-safety monitor ({}): one run = one world of one of eight workloads (aggregate-, join-, sort-, subquery-focused and general generated queries against tables of up to 120 rows incl. strings around the 12-byte inline threshold, DDL/DML histories with tiny table segments, harness-written Parquet files, generated CSV files) under random knobs (partitions 1-16, batch 1-8192) and scheduling policies. A run is a violation iff an engine assertion or a Rust safety check panics, or the process dies (located by the supervising parent). Non-trivial = >=2 scheduling decisions with choice and >=1 Pending poll, or >=1 fired fault; distinct = distinct (knobs, policy, event-trace digest).", if asan { "AddressSanitizer build: heap-buffer-overflow, use-after-free, double free abort the child" } else { "build with debug assertions and overflow checks: engine debug_assert!, raw-pointer alignment/null checks, slice bounds" });
+            cfg.assumptions = vec!["this layer executes one poll at a time on one thread: data races between partitions inside a poll are not observable here (see the Miri part and DESIGN 3 C16)".into(), "wrong rows are not counted here".into()];
+            if asan {
+                cfg.components_real.push("built with -Zsanitizer=address (nightly)".into());
+            }
+            crate::finish(&cfg, &c16::MemCheck::new(), serde_json::json!({"flavor": if asan { "asan" } else { "debug-assertions" }}))
+        }
         "C19" => supervise::run(&c19::C19Source, tier),
         "C15" => supervise::run(&c15::C15Source, tier),
         "C02" | "C03" | "C04" => {
@@ -185,6 +197,9 @@ pub fn selftest_determinism(n: u64) -> i32 {
 }
 
 pub fn replay_file(path: &str) -> i32 {
+    if std::fs::read_to_string(path).map(|s| s.contains("\"layer\": \"L1-crash\"")).unwrap_or(false) {
+        return crate::replay_crash(path);
+    }
     let r = match read_replay(path) {
         Ok(r) => r,
         Err(e) => {
